@@ -1,8 +1,9 @@
 (* C11 — dump omits exactly the fields selected by skip rules, exclude and dump=False.
    This file holds only statements closed by `exact`/short glue and Print Assumptions.
    Model: coq/model/SkipModel.v (the behaviour after the F6 and F20 repairs);
-   lemmas: coq/proofs/SkipCondProofs.v, SkipKeysProofs.v. *)
-From DW Require Import PyStr SkipModel SkipCondProofs SkipKeysProofs T_CondOps.
+   lemmas: coq/proofs/SkipCondProofs.v, SkipKeysProofs.v;
+   the closure environment of a whole class: coq/model/SkipLocals.v, coq/proofs/SkipLocalsProofs.v. *)
+From DW Require Import PyStr SkipModel SkipLocals SkipCondProofs SkipKeysProofs SkipLocalsProofs T_CondOps.
 From Coq Require Import ZArith.
 Local Open Scope Z_scope.
 
@@ -175,3 +176,145 @@ Proof.
   split; [|repeat split; reflexivity].
   repeat constructor; cbn; intuition discriminate.
 Qed.
+
+(* ---- the closure environment of a whole class ---- *)
+(* `_locals` is ONE dict threaded through the generator (SkipLocals.gen_st: Meta.skip_if,
+   Meta.skip_defaults_if, then per field its default and its own condition, as in
+   dump_func_for_dataclass); what get_skip_if_condition does with it for a value that is
+   not inlined is the `binder`.  An object is an `lval`: content (`==`) and identity (`is`).
+
+   For EVERY class — any number of fields, any mix of inlined and closure-bound conditions,
+   Meta.skip_if and Meta.skip_defaults_if included, any equalities among the values of
+   different conditions — and every binder that, called with a free name, makes the
+   returned name denote the given object, keeps the existing entries and binds no other
+   free name: every name the generated text mentions denotes, in the final `_locals`, the
+   very object its condition was built with (same content AND same identity).
+   Induction over the field list; invariant: the entries used so far are intact and the
+   per-field names of index >= i are still free (freshness of the allocation sequence). *)
+Theorem C11_locals_own_value :
+  forall B, binder_sound B -> forall m fs, own_value B m fs.
+Proof. exact own_value_sound. Qed.
+Print Assumptions C11_locals_own_value.
+
+(* the source (`_locals[operand_2] = skip_if.val; return f'{op} {operand_2}'`) is such a binder *)
+Theorem C11_locals_source_binder :
+  binder_sound bind_own /\ forall m fs, own_value bind_own m fs.
+Proof. split; [exact bind_own_sound|exact own_value_bind_own]. Qed.
+Print Assumptions C11_locals_source_binder.
+
+(* Tie T for get_skip_if_condition: its early returns and the statements after them, read from
+   models.py by AST on every run (harness/tables/CondOps.py), are the documented ones, and the
+   statements that touch `_locals` MEAN bind_own.  A source edit that re-uses, renames or
+   re-orders closure entries there changes `cond_gsc_tail` and this proof fails. *)
+Theorem C11_binder_source_tie :
+  cond_gsc_guards =
+    [(S "skip_if is None", S "False"); (S "skip_if.t_or_f", S "True");
+     (S "is_builtin(val) and (val is None or val is True or val is False or (val is ...) or (skip_if.op not in ('is', 'is not') and type(val) in (int, str, float)))",
+      S "str(skip_if)")] /\
+  cond_gsc_aliases = [(S "val", S "skip_if.val")] /\
+  exists b, binder_of_src cond_gsc_aliases cond_gsc_tail = Some b /\
+            forall l var v, b l var v = bind_own l var v.
+Proof. split; [reflexivity|]. split; [reflexivity|]. eexists. split; [reflexivity|]. reflexivity. Qed.
+Print Assumptions C11_binder_source_tie.
+
+(* the threaded generator emits the statement list and the closure of SkipModel *)
+Theorem C11_locals_generator :
+  forall m fs, fst (gen_st bind_own m fs) = gen_prog m fs /\ gen_locals bind_own m fs = gen_closure m fs.
+Proof. exact gen_st_own. Qed.
+Print Assumptions C11_locals_generator.
+
+(* Consequently, for every class, instance, E and s the function generated with the
+   threaded `_locals` appends exactly the reference selection of Condition.evaluate ... *)
+Theorem C11_keys_locals :
+  forall m fs E s,
+    NoDup (map f_name fs) ->
+    cls_asdict_st bind_own m fs E s = ref_select evaluate m fs E s.
+Proof. exact cls_asdict_st_evaluate. Qed.
+Print Assumptions C11_keys_locals.
+
+(* ... and when every comparison value and every field value is an identified object (a
+   singleton, a token, or an object with an address) `is` / `is not` are decided by object
+   identity: the selection is the one of `evaluate_id`, which has no Unspecified outcome —
+   IS / IS_NOT select exactly the fields holding / not holding the condition's own object. *)
+Theorem C11_keys_identity :
+  forall m fs E s,
+    NoDup (map f_name fs) -> cls_identified m fs = true ->
+    cls_asdict_st bind_own m fs E s = ref_select evaluate_id m fs E s /\
+    cls_asdict_st bind_own m fs E s <> Err Unspecified.
+Proof.
+  intros m fs E s Hnd Hid. split.
+  - exact (cls_asdict_st_identity m fs E s Hnd Hid).
+  - exact (cls_asdict_st_decided m fs E s Hnd Hid).
+Qed.
+Print Assumptions C11_keys_identity.
+
+Theorem C11_evaluate_id_decided :
+  (forall c v, evaluate_id c v <> Err Unspecified) /\
+  (forall c v, ocond_identified (Some c) = true -> identified v = true -> evaluate c v = evaluate_id c v).
+Proof. split; [exact evaluate_id_decided|exact evaluate_id_agrees]. Qed.
+Print Assumptions C11_evaluate_id_decided.
+
+(* A generator that re-uses an existing `_skip_*` local whose value `==` the new comparison
+   value (one local per ==-class) violates all of this.  Witness 1: fields `fa` with IS(0)
+   and `fb` with IS(0.0), the instance holding that very 0.0 in `fb`: the text of `fb` reads
+   `_skip_if_0` (the int), `fb` is kept although Condition.evaluate selects it.
+   Witness 2: Meta.skip_if = IS(T1) and a field with IS_NOT(T2), T1 == T2 == (1, 2) built
+   separately, the field holding T2: it is dropped although Condition.evaluate keeps it. *)
+Definition dd_zero_i : lval := LV (Some 1) (VInt 0).
+Definition dd_zero_f : lval := LV (Some 2) (VFloat (FFin 0 0)).
+Definition dd_fields1 : list fdesc :=
+  [FD (S "fa") (Some (S "fa")) None (Some (Cond OpIs dd_zero_i)) (LV None VNone);
+   FD (S "fb") (Some (S "fb")) None (Some (Cond OpIs dd_zero_f)) dd_zero_f].
+Definition dd_meta0 : cmeta := CM false None None.
+Definition dd_t1 : lval := LV (Some 11) (VTuple [VInt 1; VInt 2]).
+Definition dd_t2 : lval := LV (Some 12) (VTuple [VInt 1; VInt 2]).
+Definition dd_fields2 : list fdesc :=
+  [FD (S "p") (Some (S "p")) None None dd_t1;
+   FD (S "q") (Some (S "q")) None (Some (Cond OpIsNot dd_t2)) dd_t2].
+Definition dd_meta2 : cmeta := CM false (Some (Cond OpIs dd_t1)) None.
+
+Theorem C11_dedup_by_eq_refuted :
+  ~ binder_sound bind_dedup /\
+  (exists m fs, NoDup (map f_name fs) /\ cls_identified m fs = true /\ ~ own_value bind_dedup m fs /\
+                exists E s, cls_asdict_st bind_dedup m fs E s <> ref_select evaluate m fs E s) /\
+  cls_asdict_st bind_dedup dd_meta0 dd_fields1 None SUnset = Ok [(S "fa", S "fa"); (S "fb", S "fb")] /\
+  ref_select evaluate dd_meta0 dd_fields1 None SUnset = Ok [(S "fa", S "fa")] /\
+  cls_asdict_st bind_dedup dd_meta2 dd_fields2 None SUnset = Ok [] /\
+  ref_select evaluate dd_meta2 dd_fields2 None SUnset = Ok [(S "q", S "q")].
+Proof.
+  assert (Hov : ~ own_value bind_dedup dd_meta0 dd_fields1).
+  { intro H. unfold own_value in H. rewrite Forall_forall in H.
+    specialize (H (NSkipIf 0, dd_zero_f)).
+    assert (Hin : In (NSkipIf 0, dd_zero_f) (gen_uses bind_dedup dd_meta0 dd_fields1))
+      by (vm_compute; right; left; reflexivity).
+    specialize (H Hin). vm_compute in H. discriminate H. }
+  split; [|split; [|repeat split; reflexivity]].
+  - intro Hs. apply Hov. apply own_value_sound. exact Hs.
+  - exists dd_meta0, dd_fields1. split; [|split; [reflexivity|split; [exact Hov|]]].
+    + repeat constructor; cbn; intuition discriminate.
+    + exists None, SUnset. vm_compute. discriminate.
+Qed.
+Print Assumptions C11_dedup_by_eq_refuted.
+
+(* non-vacuity: a class with four closure-bound conditions whose values are pairwise equal
+   (0 == 0.0 == False is inlined for ==, bound for `is`) but distinct objects, a Meta.skip_if
+   and a Meta.skip_defaults_if among them; the source's binder gives each its own local *)
+Definition ov_fields : list fdesc :=
+  [FD (S "fa") (Some (S "fa")) (Some (LV (Some 20) (VInt 7))) (Some (Cond OpIs dd_zero_i)) dd_zero_f;
+   FD (S "fb") (Some (S "fb")) None (Some (Cond OpIs dd_zero_f)) dd_zero_f;
+   FD (S "fc") (Some (S "fc")) None None dd_t2;
+   FD (S "fd") (Some (S "fd")) None (Some (Cond OpIsNot dd_t2)) dd_t2;
+   FD (S "fe") (Some (S "fe")) None (Some (Cond OpEq (LV (Some 13) (VTuple [VInt 1; VInt 2])))) dd_t1].
+Definition ov_meta : cmeta := CM false (Some (Cond OpIs dd_t1)) (Some (Cond OpIs (LV (Some 3) (VInt 0)))).
+
+Example C11_locals_example :
+  cls_identified ov_meta ov_fields = true /\
+  map fst (gen_uses bind_own ov_meta ov_fields) =
+    [NSkipValue; NSkipDefaultsValue; NSkipIf 0; NSkipIf 1; NSkipIf 3; NSkipIf 4] /\
+  own_valueb bind_own ov_meta ov_fields = true /\
+  map fst (gen_uses bind_dedup ov_meta ov_fields) =
+    [NSkipValue; NSkipDefaultsValue; NSkipDefaultsValue; NSkipDefaultsValue; NSkipValue; NSkipValue] /\
+  own_valueb bind_dedup ov_meta ov_fields = false /\
+  cls_asdict_st bind_own ov_meta ov_fields None SUnset = Ok [(S "fa", S "fa"); (S "fc", S "fc"); (S "fd", S "fd")] /\
+  cls_asdict_st bind_own ov_meta ov_fields None SUnset = ref_select evaluate_id ov_meta ov_fields None SUnset.
+Proof. repeat split; reflexivity. Qed.
